@@ -159,7 +159,9 @@ func (x *Exec) stmt(st *State, s ast.Stmt, k cont) {
 
 func (x *Exec) doPanic(st *State, call *ast.CallExpr) {
 	if x.contract != nil && x.contract.Panics != nil {
-		env := x.specEnvPre(st)
+		// parameters denote entry values, ghost state (OS / read failures) is the current one
+		env := x.specEnvAt(st, call.Pos(), 0)
+		env.postMode = true
 		c := asTerm(x.evalSpec(env, x.contract.Panics.E))
 		x.oblige(st, "panic", "panic/intended", c, call.Pos(), "explicit panic only under: "+x.contract.Panics.Src)
 		return
@@ -869,8 +871,16 @@ type loopSpec struct {
 	autoDec  func(*State) (Term, bool) // synthesised termination measure
 	bodyPos  token.Pos
 	hidden   string
+	bodyEnd  token.Pos
 	hiddenBound *Term
 	syncKey  func(*State) // range loops: the key variable equals the hidden index wherever invariants are evaluated
+}
+
+func (ls *loopSpec) endPos() token.Pos {
+	if ls.bodyEnd.IsValid() {
+		return ls.bodyEnd
+	}
+	return ls.bodyPos
 }
 
 func (x *Exec) loopContract(ord int) *LoopContract {
@@ -914,7 +924,7 @@ func (x *Exec) unrollLoop(st *State, ls *loopSpec, k cont, depth int) {
 	}
 	x.anchor(st, fmt.Sprintf("in loop %d", ls.ord), ls.bodyPos, ls.ord)
 	x.block(st, ls.body, func(s *State) {
-		x.anchor(s, fmt.Sprintf("end loop %d", ls.ord), ls.bodyPos, ls.ord)
+		x.anchor(s, fmt.Sprintf("end loop %d", ls.ord), ls.endPos(), ls.ord)
 		next(s)
 	})
 	x.brk = x.brk[:nb-1]
@@ -999,7 +1009,7 @@ func (x *Exec) runLoop(st *State, ls *loopSpec, k cont) {
 		if s.dead {
 			return
 		}
-		x.anchor(s, fmt.Sprintf("end loop %d", ls.ord), ls.bodyPos, ls.ord)
+		x.anchor(s, fmt.Sprintf("end loop %d", ls.ord), ls.endPos(), ls.ord)
 		if ls.post != nil {
 			ls.post(s)
 		}
@@ -1097,7 +1107,7 @@ func (x *Exec) forStmt(st *State, s *ast.ForStmt, k cont) {
 	ord := x.loopOrd[s]
 	run := func(st *State) {
 		ms := x.analyseMods(s.Cond, s.Post, s.Body)
-		ls := &loopSpec{ord: ord, node: s, mods: ms, body: s.Body.List, bodyPos: s.Body.Lbrace + 1}
+		ls := &loopSpec{ord: ord, node: s, mods: ms, body: s.Body.List, bodyPos: s.Body.Lbrace + 1, bodyEnd: s.Body.Rbrace}
 		if s.Cond != nil {
 			ls.cond = func(st *State) Term { return asTerm(x.eval(st, s.Cond)) }
 		}
@@ -1180,7 +1190,7 @@ func (x *Exec) rangeStmt(st *State, s *ast.RangeStmt, k cont) {
 			st.vars[valObj] = x.zero(st, valObj.Type())
 			ms.vars[valObj] = true
 		}
-		ls := &loopSpec{ord: ord, node: s, mods: ms, body: s.Body.List, bodyPos: s.Body.Lbrace + 1}
+		ls := &loopSpec{ord: ord, node: s, mods: ms, body: s.Body.List, bodyPos: s.Body.Lbrace + 1, bodyEnd: s.Body.Rbrace}
 		ls.cond = func(st *State) Term { return Cmp("<", st.ghost[hidden], n) }
 		ls.pre = func(st *State) {
 			i := st.ghost[hidden]
@@ -1216,7 +1226,7 @@ func (x *Exec) rangeStmt(st *State, s *ast.RangeStmt, k cont) {
 			ms.vars[keyObj] = true
 		}
 		ms.ghost = true
-		ls := &loopSpec{ord: ord, node: s, mods: ms, body: s.Body.List, bodyPos: s.Body.Lbrace + 1}
+		ls := &loopSpec{ord: ord, node: s, mods: ms, body: s.Body.List, bodyPos: s.Body.Lbrace + 1, bodyEnd: s.Body.Rbrace}
 		more := x.fresh("chan_more", SBool)
 		ls.cond = func(st *State) Term { return x.fresh("recv_ok", SBool) }
 		_ = more
